@@ -7,7 +7,8 @@
  *                                         deflate: level)
  *   I hdrlen h.. rawlen r.. nops op...    element injected at format level: the special-element record and the
  *                                         DFTAG_COMPRESSED stream are written as plain elements, then ops run
- *       ops:  W n b1..bn | S off | R n | E | OR | OW | C | Z | X
+ *       ops:  W n b1..bn | S off (DF_START) | SC off (DF_CURRENT) | SE off (DF_END) | T (Htell) | Q (Hinquire
+ *             length,position) | R n | E | OR | OW | C | Z | X
  *   B nops op...                          bit element:  w count value | r count | s byte bit | e fill | or | ow
  *   BI n b1..bn nops op...                bit element whose n bytes are stored with Hputelement first (any length,
  *                                         e.g. a short last 4096-byte block), then ops (or | r | s | e | x)
@@ -171,9 +172,24 @@ run_ops(FILE *f, int32 *pfid, int32 aid)
             emit_n(aid == FAIL ? -1 : Hwrite(aid, (int32)n, b));
             free(b);
         }
-        else if (!strcmp(t, "S")) {
-            long off = rdl(f);
-            emit_n(aid == FAIL ? -1 : Hseek(aid, (int32)off, DF_START));
+        else if (!strcmp(t, "S") || !strcmp(t, "SC") || !strcmp(t, "SE")) {
+            long off    = rdl(f);
+            int  origin = t[1] == 0 ? DF_START : (t[1] == 'C' ? DF_CURRENT : DF_END);
+            emit_n(aid == FAIL ? -1 : Hseek(aid, (int32)off, origin));
+        }
+        else if (!strcmp(t, "T")) {
+            emit_n(aid == FAIL ? -1 : Htell(aid));
+        }
+        else if (!strcmp(t, "Q")) {
+            int32 len = -7, posn = -7;
+            char  u[64];
+            emit_sep();
+            if (aid == FAIL || Hinquire(aid, NULL, NULL, NULL, &len, NULL, &posn, NULL, NULL) == FAIL)
+                emit("f");
+            else {
+                snprintf(u, sizeof u, "q%d,%d", (int)len, (int)posn);
+                emit(u);
+            }
         }
         else if (!strcmp(t, "R")) {
             long           n   = rdl(f);
